@@ -423,3 +423,43 @@ def c10_8(ctx, r):
     from .c01 import c01_1
 
     c01_1(ctx, r)
+
+
+@rule(P, "C10.9", "T1", "a new submission starts with an exclusive creation of its output directory (two submit-jobs into one directory cannot both create the cluster state)", min_obligations=2)
+def c10_9(ctx, r):
+    """`os.path.exists(output)` followed by Cluster.create() is check-then-act; between two concurrent `submit-jobs -o X` the only atomic step is
+    the directory creation.  os.makedirs(output) / os.mkdir(output) raises FileExistsError for the loser - unless it is given exist_ok=True, in
+    which case both go on to Cluster.create(): the second resets both version files to 0 and overwrites the first one's recorded batches, and
+    both hold the submitter role."""
+    fn = ctx.fn("submit_jobs.submit_jobs", "C10.9")
+    out = "output" if "output" in fn.params else None
+    if out is None:
+        raise AnalysisError("C10.9", f"submit_jobs parameters: {fn.params[:4]}...")
+    mk = []
+    for c in iter_own(fn.node):
+        if isinstance(c, ast.Call) and ctx.src(c.func) in ("os.makedirs", "os.mkdir", "makedirs", "mkdir") and c.args and ctx.src(c.args[0]) == out:
+            mk.append(c)
+        if isinstance(c, ast.Call) and isinstance(c.func, ast.Attribute) and c.func.attr == "mkdir" and out in ctx.src(c.func.value):
+            mk.append(c)
+    runs = [s for s in ctx.cg.sites_in(fn) if s.calls_short(ctx.ix, "JobSubmitter.run_submit_jobs")]
+    if not mk or len(runs) != 1:
+        raise AnalysisError("C10.9", f"{len(mk)} creations of the output directory and {len(runs)} run_submit_jobs calls in submit_jobs")
+
+    def exclusive(c):
+        for k in c.keywords:
+            if k.arg == "exist_ok" and not (isinstance(k.value, ast.Constant) and k.value.value is False):
+                return False
+            if k.arg is None:
+                return False
+        pos = 2 if ctx.src(c.func).endswith("makedirs") else None  # os.makedirs(name, mode, exist_ok)
+        return not (pos is not None and len(c.args) > pos)
+
+    excl = [c for c in mk if exclusive(c)]
+    r.check(bool(excl), "the output directory is created exclusively (no exist_ok)", key_of(fn, "output directory creation not exclusive"), fn.loc(mk[0]),
+            f"`{ctx.src(mk[0])}` tolerates an existing directory: of two concurrent submit-jobs into the same new directory both pass the existence check, both create the cluster state and both hold "
+            "the submitter role; the second create resets the version files and overwrites the first one's state", "at most one process is promoted ... stale state never overwrites newer state")
+    run_nodes = ctx.nodes_of(fn, runs[0].node)
+    excl_nodes = [n for c in excl for n in ctx.nodes_of(fn, c)]
+    okd = bool(excl_nodes) and all(dominated_by(ctx, fn, rn, excl_nodes) for rn in run_nodes)
+    r.check(okd or not excl, "the exclusive creation dominates run_submit_jobs", key_of(fn, "submission without exclusive creation"), fn.loc(runs[0].node),
+            "run_submit_jobs() is reachable without passing the exclusive creation of the output directory", "at most one process is promoted")
